@@ -10,3 +10,4 @@ pub mod codec;
 pub mod engine;
 pub mod misc;
 pub mod client;
+pub mod options;
